@@ -58,6 +58,10 @@ def clsOf : String → Except String (Char → Bool)
   | "text" => pure isEscText | "comments" => pure isEscComments | "gt" => pure isEscGt
   | c => throw s!"unknown class {c}"
 
+def escOf : String → Except String (List Char → List Char)
+  | "content" => pure escapeContent
+  | c => do let cls ← clsOf c; pure (escape cls)
+
 def kindOf : String → Except String FragKind
   | "semantic" => pure .semantic | "visual" => pure .visual | "other" => pure .other
   | k => throw s!"unknown kind {k}"
@@ -66,9 +70,11 @@ def handle (op : String) (j : Json) : Except String Json := do
   match op with
   | "xml.escape" =>
     let s ← getStr j "s"
-    let cls ← clsOf (← j.getObjValAs? String "cls")
+    let c ← j.getObjValAs? String "cls"
+    let cls ← clsOf (if c == "content" then "text" else c)
+    let esc ← escOf c
     if escapeRaises cls s then pure (Json.mkObj [("raises", "KeyError")])
-    else pure (Json.mkObj [("out", jstr (escape cls s))])
+    else pure (Json.mkObj [("out", jstr (esc s))])
   | "xml.classes" =>
     -- membership of the given code points in the character classes the writer uses
     let cps ← j.getObjValAs? (Array Nat) "cps"
@@ -96,7 +102,7 @@ def handle (op : String) (j : Json) : Except String Json := do
     let attrs ← pairs (← j.getObjVal? "attrs")
     pure (jpairs (unmappedAttrs pk nsmap attrs))
   | "xml.text" =>
-    let cls ← clsOf (← j.getObjValAs? String "cls")
+    let cls ← escOf (← j.getObjValAs? String "cls")
     let ml ← getBool j "multiline"
     let t ← optStr (← j.getObjVal? "text")
     let pos ← getNat j "pos"
